@@ -15,7 +15,7 @@ import ast
 import re
 from typing import Dict, List, Tuple
 
-from sa.core import AnalysisError, Finding, Program, Report, program, src, walk_no_nested
+from sa.core import AnalysisError, Finding, Program, Report, norm_locals, program, src, walk_no_nested
 
 FOLD = {"lower", "upper", "casefold", "title", "capitalize", "swapcase"}
 NAME_LIKE = re.compile(r"(^|[._\[])(comp(onent)?_?name|ds_name|dataset_name|col(umn)?_?name|alias|operand_name|result_name|table_name|var_name|name)$|\.name$|node\.value$|\.value$")
@@ -105,6 +105,20 @@ def run(rep: Report, tier: str) -> None:
         if cols != want:
             rep.add(Finding("R29.3", f"R29.3/sql/{label}", fs.module.rel, fs.node.lineno, fs.qualname,
                             f"{op} {names or ren} on DS_1(id A; measures M, m, N; viral V): semantic analysis declares {want}, the SELECT list delivers {cols}"))
+    # a name that differs from an existing component only in letter case does not exist: the clause validators reject it
+    for op, names, ren in (("drop", ["n"], None), ("keep", ["n"], None), ("rename", [], [("n", "X")])):
+        label = f"{op}/{'+'.join(names) if names else '+'.join(f'{a}>{b}' for a, b in ren or [])}/must-reject"
+        try:
+            a = sm.clause_interpreter(M, op, D(), names, ren)
+        except Unmodelled as e:
+            raise AnalysisError(f"R29.3 {label}: construct outside the evaluator's language: {e}")
+        n3 += 1
+        rep.instance("R29.3", label, nontrivial=True, sample={"validator": a[1] if a[0] != "ok" else sorted(a[1].components)})
+        if a[0] == "ok":
+            fv = P.func(f"{sm.CLAUSE_VALIDATORS[op]}.validate")
+            rep.add(Finding("R29.3", f"R29.3/validator/{label}", fv.module.rel, fv.node.lineno, fv.qualname,
+                            f"{op} {names or ren} on DS_1(id A; measures M, m, N; viral V): `n` is not a component (only N is) but semantic analysis accepts the clause and declares "
+                            f"{sorted(a[1].components)}: the SQL names the column as written and DuckDB resolves it case-insensitively, so the clause silently acts on N"))
     rep.floor("R29.3 cases", n3, 8)
     # ---- R29.4 a dataset scheduled for deletion is dropped: its name (any letter case) is free again for a later table ----
     rep.rule("R29.4", "cleanup_scheduled_datasets: every dataset in the deletion schedule is dropped on every path (DuckDB's catalog is case-insensitive: a table that lingers "
@@ -129,4 +143,36 @@ def run(rep: Report, tier: str) -> None:
                                 "a dataset of the deletion schedule can be left in the database (a path through the loop body reaches the next iteration without DROP TABLE): "
                                 "the table lingers, and a later statement that creates a dataset whose name differs only in letter case fails with `Table ... already exists`",
                                 describe_path(pth)))
+    # ---- R29.5 a temporary catalog object named after a dataset lives only while that dataset is loaded ----
+    rep.rule("R29.5", "every conn.register(<name>, ...) is undone by conn.unregister(<same name>) on every exit of the same function (two inputs DS_1 / ds_1 share one case-insensitive view name)")
+    n5 = 0
+    for f5 in P.iter_functions():
+        if not f5.module.name.startswith("vtlengine.duckdb_transpiler"):
+            continue
+        regs = [c for c in walk_no_nested(f5.node) if isinstance(c, ast.Call) and isinstance(c.func, ast.Attribute) and c.func.attr == "register" and len(c.args) >= 2
+                and "conn" in src(c.func.value).lower()]
+        if not regs:
+            continue
+        g5 = CFG(f5.node)
+        for c in regs:
+            n5 += 1
+            nm = src(c.args[0])
+            rn = [x for x in g5.nodes if x.stmt is not None and x.kind == "stmt" and any(y is c for y in ast.walk(x.stmt))]
+            un = [x for x in g5.nodes if x.stmt is not None and any(isinstance(y, ast.Call) and isinstance(y.func, ast.Attribute) and y.func.attr == "unregister" and y.args and src(y.args[0]) == nm
+                                                                     for e in g5.own_exprs(x) for y in ast.walk(e))]
+            rep.instance("R29.5", f"register/{f5.qualname}/{norm_locals(nm, f5.node)}", nontrivial=True, sample={"registered": nm, "unregister sites": sorted({u.lineno for u in un})})
+            bad = None
+            for r_ in rn:
+                for s_ in g5.norm_succ.get(r_, set()):
+                    if s_ in un:
+                        continue
+                    for ex in (g5.exit, g5.raise_exit):
+                        p5 = [s_] if s_ is ex else g5.path_avoiding(s_, lambda x, ex=ex: x is ex, lambda x: x in un)
+                        if p5 is not None:
+                            bad = describe_path([r_] + p5)
+            if bad:
+                rep.add(Finding("R29.5", f"R29.5/register/{f5.qualname}", f5.module.rel, c.lineno, f5.qualname,
+                                f"`{src(c)[:70]}` is not followed by conn.unregister({nm}) on every exit of {f5.name}: the view outlives the load of its dataset, and since DuckDB's catalog is "
+                                f"case-insensitive the view of DS_1 and the view of ds_1 are one object - whichever DataFrame was registered last feeds both tables", bad))
+    rep.floor("R29.5 conn.register sites", n5, 1)
     rep.assumptions = ["DuckDB identifiers are case-insensitive even when quoted (documented DuckDB behaviour; confirmed by triage/c29_case_demo.py)"]
